@@ -76,6 +76,11 @@ Definition handlers_raw (x : item) : list handler := sort_desc (handlers_chain x
 Definition handlers_for (x : item) : list handler :=
   if is_cancel (imode x) then [] else sort_desc (dedup [] (handlers_chain x)).
 
+(* the order a pass has to dispatch a snapshot in, as a function: for each priority value in ascending order
+   ([ks] lists the distinct priority values, ascending) the entries of that priority in queue order *)
+Definition bucket (ks : list K) (l : list item) : list item :=
+  flat_map (fun k => filter (fun x => eqk (ikey x) k) l) ks.
+
 Inductive frame :=
 | FBody (ctx : option (nat * nat)) (acts : list act)    (* main program (None) or handler body (event id, handler id) *)
 | FLoop                                                   (* inside dispatchEvents, at the head of `while self._flush_batch > 0` *)
@@ -206,7 +211,7 @@ Arguments TRet {K}. Arguments TGen {K}. Arguments TRaise {K}. Arguments TDone {K
 Arguments fifo {K}. Arguments heap {K}. Arguments counter {K}. Arguments batch {K}. Arguments stopped {K}.
 Arguments stack {K}. Arguments trace {K}. Arguments crashed {K}.
 Arguments init {K}. Arguments fires {K}. Arguments disps {K}. Arguments invs {K}. Arguments pending_fires {K}.
-Arguments pf_from {K}. Arguments is_snap {K}. Arguments depth {K}. Arguments is_body {K}.
+Arguments pf_from {K}. Arguments bucket {K}. Arguments is_snap {K}. Arguments depth {K}. Arguments is_body {K}.
 
 (* ---- instance used to run the model: priorities are integers (the harness maps
    the Python numbers order-preservingly, p -> 2p) *)
